@@ -1833,3 +1833,180 @@ Check C04_cost_punycode_decoder :
         snd (C04_CostPunyDec.dec_loop_c dbg it input false 0 1 Punycode.BASE 0 len0 Punycode.INITIAL_N Punycode.INITIAL_BIAS [])
         <= 2001 * N.of_nat (length input) + 1).
 Print Assumptions C04_cost_punycode_decoder.
+
+(* ================================================================== task c04c03inv *)
+From RU Require Proofs.C04_CheckReach Proofs.C02_Hist Proofs.C02_HistInst Proofs.C02_Reach4 Proofs.C02_Reach5 Proofs.C03_ReachFinEx Proofs.C09_Host.
+
+(* Url::check_invariants WITHOUT the premise ip_text_ok (Proofs/C04_CheckReach.v).  ip_text_ok hd u is the boolean form of
+   C03's host text invariant KT (C03_host_text_parse: every record parse_url returns; C03_views_reachable: every Reachable3
+   record).  (1) a fixpoint of re-parsing IS a parse result, so under HostWf alone check_invariants returns Ok(()) on every
+   fixpoint; (2) every record of C02's ReachC4 (C02_reach_partial4: fixpoint of re-parsing; hypotheses of C02) satisfies
+   ip_text_ok and check_invariants returns Ok(()) in both configurations of the history; (3) on a Reachable3 record
+   (hypotheses of C04_no_panic_reachable3) ip_text_ok holds, so check_invariants panics EXACTLY when the re-parse of the
+   serialization fails (C02's known classes) and returns Ok(()) on every fixpoint. *)
+Theorem C04_check_invariants_reach :
+  (forall dbg hp hpo hd u, C03_ReachParts.HostWf hp hpo hd -> C02_Reach.Fixpoint_of_reparse dbg hp hpo hd u ->
+     C04_CheckInv.check_invariants hd u (C02_Reach.reparse dbg hp hpo hd u) = C04_CheckInv.COk)
+  /\ (forall dbg hp hpo hd, C02_Hist.HostOK2 hp hpo hd -> C02_SetHostCanon.host_nonempty hp hpo ->
+      forall u, C02_Reach5.ReachC4 dbg hp hpo hd u ->
+      C04_CheckInv.ip_text_ok hd u = true
+      /\ C04_CheckInv.check_invariants hd u (C02_Reach.reparse dbg hp hpo hd u) = C04_CheckInv.COk)
+  /\ (forall hp hpo hd, C03_ReachParts.HostWf hp hpo hd -> C02_SetHostCanon.host_nonempty hp hpo ->
+      C03_AuthEnd.IpWf hd -> C05_Parser.HostOK hp hpo hd -> C05_Alphabet.IpOKv hd ->
+      forall dbg u, C02_Reach3.Reachable3 dbg hp hpo hd u ->
+      C04_CheckInv.ip_text_ok hd u = true
+      /\ forall dbg',
+         (C04_CheckInv.check_invariants hd u (C02_Reach.reparse dbg' hp hpo hd u) = C04_CheckInv.CPanic
+          <-> forall o, C02_Reach.reparse dbg' hp hpo hd u <> POk o)
+         /\ (C02_Reach.Fixpoint_of_reparse dbg' hp hpo hd u ->
+             C04_CheckInv.check_invariants hd u (C02_Reach.reparse dbg' hp hpo hd u) = C04_CheckInv.COk)).
+Proof.
+  split; [intros dbg hp hpo hd u HW F; exact (C04_CheckReach.check_invariants_fix hp hpo hd dbg u HW F)|].
+  split; [intros dbg hp hpo hd H1 H2 u R; exact (C04_CheckReach.check_invariants_reach hp hpo hd dbg H1 H2 u R)|].
+  intros hp hpo hd H1 H2 H3 H4 H5 dbg u R.
+  exact (conj (C04_CheckReach.reach3_ip_text_ok hp hpo hd H1 H2 H3 H4 H5 dbg u R)
+              (C04_CheckReach.check_invariants_reach3 hp hpo hd H1 H2 H3 H4 H5 dbg u R)).
+Qed.
+Check C04_check_invariants_reach :
+  (forall dbg hp hpo hd u, C03_ReachParts.HostWf hp hpo hd -> C02_Reach.Fixpoint_of_reparse dbg hp hpo hd u ->
+     C04_CheckInv.check_invariants hd u (C02_Reach.reparse dbg hp hpo hd u) = C04_CheckInv.COk)
+  /\ (forall dbg hp hpo hd, C02_Hist.HostOK2 hp hpo hd -> C02_SetHostCanon.host_nonempty hp hpo ->
+      forall u, C02_Reach5.ReachC4 dbg hp hpo hd u ->
+      C04_CheckInv.ip_text_ok hd u = true
+      /\ C04_CheckInv.check_invariants hd u (C02_Reach.reparse dbg hp hpo hd u) = C04_CheckInv.COk)
+  /\ (forall hp hpo hd, C03_ReachParts.HostWf hp hpo hd -> C02_SetHostCanon.host_nonempty hp hpo ->
+      C03_AuthEnd.IpWf hd -> C05_Parser.HostOK hp hpo hd -> C05_Alphabet.IpOKv hd ->
+      forall dbg u, C02_Reach3.Reachable3 dbg hp hpo hd u ->
+      C04_CheckInv.ip_text_ok hd u = true
+      /\ forall dbg',
+         (C04_CheckInv.check_invariants hd u (C02_Reach.reparse dbg' hp hpo hd u) = C04_CheckInv.CPanic
+          <-> forall o, C02_Reach.reparse dbg' hp hpo hd u <> POk o)
+         /\ (C02_Reach.Fixpoint_of_reparse dbg' hp hpo hd u ->
+             C04_CheckInv.check_invariants hd u (C02_Reach.reparse dbg' hp hpo hd u) = C04_CheckInv.COk)).
+Print Assumptions C04_check_invariants_reach.
+
+(* with the host MODEL: the only premise is IdnaOK idna *)
+Theorem C04_check_invariants_reach_model : forall dbg idna, C09_Host.IdnaOK idna ->
+  forall u, C02_Reach5.ReachC4 dbg (Host.host_parse idna) Host.host_parse_opaque Host.host_display u ->
+  C04_CheckInv.check_invariants Host.host_display u
+    (C02_Reach.reparse dbg (Host.host_parse idna) Host.host_parse_opaque Host.host_display u) = C04_CheckInv.COk.
+Proof.
+  intros dbg idna OK u R.
+  exact (proj2 (C04_CheckReach.check_invariants_reach _ _ _ dbg (C02_HistInst.HostOK2_model idna OK)
+                  (C02_Reach4.host_nonempty_model idna) u R)).
+Qed.
+Check C04_check_invariants_reach_model : forall dbg idna, C09_Host.IdnaOK idna ->
+  forall u, C02_Reach5.ReachC4 dbg (Host.host_parse idna) Host.host_parse_opaque Host.host_display u ->
+  C04_CheckInv.check_invariants Host.host_display u
+    (C02_Reach.reparse dbg (Host.host_parse idna) Host.host_parse_opaque Host.host_display u) = C04_CheckInv.COk.
+Print Assumptions C04_check_invariants_reach_model.
+
+(* non-vacuity: the hypotheses hold for the host model with the oracle idna_clean, and ReachC4 contains a record with an
+   IPv6 host: "http://[::1]:81/p?k=v" (C03_round_trips_reach_inhabited) *)
+Example C04_check_invariants_reach_inhabited :
+  (C02_Hist.HostOK2 C03_ReachFinEx.mhp0 Host.host_parse_opaque Host.host_display
+   /\ C02_SetHostCanon.host_nonempty C03_ReachFinEx.mhp0 Host.host_parse_opaque)
+  /\ C03_ReachFinEx.reachc4_example_stmt.
+Proof. exact (conj C03_ReachFinEx.reachfin_hyps C03_ReachFinEx.reachc4_example). Qed.
+
+From RU Require Proofs.C03_InvSP Proofs.C03_InvSPReach Proofs.C04_Reach3b.
+
+(* C04_no_panic_reachable3 with its two remaining conditional clauses closed.  (a) path_segments_mut sessions: the class
+   psm_assert_fails (PathSegmentsMut::new's debug assertion: special scheme and the byte at path_start is not '/') is NOT
+   reached - SP u := special scheme -> the byte at path_start is '/' is an invariant of Parser::parse_url (every arm, file
+   states included: C03_special_path_parse) and of every step of the 19 mutators outside excl03 (C03_special_path_step),
+   hence of Reachable3 - so sessions NEVER panic on a reached record, in either configuration.  (b) check_invariants:
+   ip_text_ok is a consequence of C03's invariant KT (C04_check_invariants_reach), so it panics exactly when the re-parse
+   fails and returns Ok(()) on every fixpoint of re-parsing.  What stays an iff: set_host(None) (finding F-C04-1,
+   known_c04_1: a record whose path is empty behind an authority, e.g. "a://h?q" - reached by parsing). *)
+Theorem C04_no_panic_reachable3b : forall hp hpo hd, C03_ReachParts.HostWf hp hpo hd -> C02_SetHostCanon.host_nonempty hp hpo ->
+  C03_AuthEnd.IpWf hd -> C05_Parser.HostOK hp hpo hd -> C05_Alphabet.IpOKv hd ->
+  forall dbg u, C02_Reach3.Reachable3 dbg hp hpo hd u ->
+  (wf_b u = true /\ C06_Main.wfh u /\ C04_Origin.tuple_no_host_b u = false
+   /\ C03_InvSP.SP u /\ C04_SetPath.psm_assert_fails u = false /\ C04_CheckInv.ip_text_ok hd u = true)
+  /\ forall dbg',
+  ((forall f, exists u', Setters.set_fragment dbg' u f = Some u')
+   /\ (forall q, C06_Main.str_arg_ok q -> exists u', Setters.set_query dbg' u q = Some u')
+   /\ (forall p, C06_Main.port_arg_ok p -> exists r, Setters.set_port dbg' u p = Some r)
+   /\ (forall pw, exists r, Setters.set_password dbg' u pw = Some r)
+   /\ (forall un, exists r, Setters.set_username dbg' u un = Some r)
+   /\ (forall s, exists r, Setters.set_scheme dbg' u s = Some r))
+  /\ ((forall p, exists u', Setters.set_path dbg' u p = Some u')
+      /\ (forall ops, exists r, Setters.path_segments_session dbg' u ops = Some r)
+      /\ (forall h, Setters.set_host dbg' hp hpo hd u h = None <-> dbg' = true /\ h = None /\ C04_SetHost.known_c04_1 u = true)
+      /\ (forall h, exists r, Setters.set_ip_host dbg' hd u h = Some r)
+      /\ (forall h op, exists u', Setters.set_host_internal dbg' hd u h op = Some u'))
+  /\ ((forall v, exists r, Setters.q_set_protocol dbg' u v = Some r)
+      /\ (forall v, exists r, Setters.q_set_username dbg' u v = Some r)
+      /\ (forall v, exists r, Setters.q_set_password dbg' u v = Some r)
+      /\ (forall v, exists r, Setters.q_set_host dbg' hp hpo hd u v = Some r)
+      /\ (forall v, exists r, Setters.q_set_hostname dbg' hp hpo hd u v = Some r)
+      /\ (forall v, exists r, Setters.q_set_port dbg' u v = Some r)
+      /\ (forall v, exists u', Setters.q_set_pathname dbg' u v = Some u')
+      /\ (forall v, usv_list v -> exists u', Setters.q_set_search dbg' u v = Some u')
+      /\ (forall v, exists u', Setters.q_set_hash dbg' u v = Some u'))
+  /\ (forall c, Origin.url_origin dbg' hp hpo hd c u <> Origin.OPanic /\ Origin.url_origin dbg' hp hpo hd c u <> Origin.OFuel)
+  /\ (C04_CheckInv.check_invariants hd u (C02_Reach.reparse dbg' hp hpo hd u) = C04_CheckInv.CPanic
+      <-> forall o, C02_Reach.reparse dbg' hp hpo hd u <> POk o)
+  /\ (C02_Reach.Fixpoint_of_reparse dbg' hp hpo hd u ->
+      C04_CheckInv.check_invariants hd u (C02_Reach.reparse dbg' hp hpo hd u) = C04_CheckInv.COk).
+Proof.
+  intros hp hpo hd H1 H2 H3 H4 H5 dbg u R.
+  destruct (C04_Reach3.reach3_premises hp hpo hd H1 H2 H3 H4 H5 dbg u R) as (P1 & P2 & P3).
+  destruct (C03_InvSPReach.reach3_psm_assert dbg hp hpo hd H1 H2 H3 H4 H5 u R) as [S F].
+  pose proof (C04_CheckReach.reach3_ip_text_ok hp hpo hd H1 H2 H3 H4 H5 dbg u R) as I3.
+  split; [exact (conj P1 (conj P2 (conj P3 (conj S (conj F I3)))))|].
+  intros dbg'.
+  destruct (C04_Reach3.reach3_no_panic hp hpo hd H1 H2 H3 H4 H5 dbg u R dbg') as (A & (B1 & _ & B3 & B4 & B5) & C & D & _ & _).
+  destruct (C04_CheckReach.check_invariants_reach3 hp hpo hd H1 H2 H3 H4 H5 dbg u R dbg') as [E1 E2].
+  split; [exact A|]. split.
+  - split; [exact B1|]. split; [|exact (conj B3 (conj B4 B5))].
+    intros ops. exact (proj2 (C04_Reach3b.reach3_sessions_total hp hpo hd H1 H2 H3 H4 H5 dbg u R) dbg' ops).
+  - exact (conj C (conj D (conj E1 E2))).
+Qed.
+Check C04_no_panic_reachable3b : forall hp hpo hd, C03_ReachParts.HostWf hp hpo hd -> C02_SetHostCanon.host_nonempty hp hpo ->
+  C03_AuthEnd.IpWf hd -> C05_Parser.HostOK hp hpo hd -> C05_Alphabet.IpOKv hd ->
+  forall dbg u, C02_Reach3.Reachable3 dbg hp hpo hd u ->
+  (wf_b u = true /\ C06_Main.wfh u /\ C04_Origin.tuple_no_host_b u = false
+   /\ C03_InvSP.SP u /\ C04_SetPath.psm_assert_fails u = false /\ C04_CheckInv.ip_text_ok hd u = true)
+  /\ forall dbg',
+  ((forall f, exists u', Setters.set_fragment dbg' u f = Some u')
+   /\ (forall q, C06_Main.str_arg_ok q -> exists u', Setters.set_query dbg' u q = Some u')
+   /\ (forall p, C06_Main.port_arg_ok p -> exists r, Setters.set_port dbg' u p = Some r)
+   /\ (forall pw, exists r, Setters.set_password dbg' u pw = Some r)
+   /\ (forall un, exists r, Setters.set_username dbg' u un = Some r)
+   /\ (forall s, exists r, Setters.set_scheme dbg' u s = Some r))
+  /\ ((forall p, exists u', Setters.set_path dbg' u p = Some u')
+      /\ (forall ops, exists r, Setters.path_segments_session dbg' u ops = Some r)
+      /\ (forall h, Setters.set_host dbg' hp hpo hd u h = None <-> dbg' = true /\ h = None /\ C04_SetHost.known_c04_1 u = true)
+      /\ (forall h, exists r, Setters.set_ip_host dbg' hd u h = Some r)
+      /\ (forall h op, exists u', Setters.set_host_internal dbg' hd u h op = Some u'))
+  /\ ((forall v, exists r, Setters.q_set_protocol dbg' u v = Some r)
+      /\ (forall v, exists r, Setters.q_set_username dbg' u v = Some r)
+      /\ (forall v, exists r, Setters.q_set_password dbg' u v = Some r)
+      /\ (forall v, exists r, Setters.q_set_host dbg' hp hpo hd u v = Some r)
+      /\ (forall v, exists r, Setters.q_set_hostname dbg' hp hpo hd u v = Some r)
+      /\ (forall v, exists r, Setters.q_set_port dbg' u v = Some r)
+      /\ (forall v, exists u', Setters.q_set_pathname dbg' u v = Some u')
+      /\ (forall v, usv_list v -> exists u', Setters.q_set_search dbg' u v = Some u')
+      /\ (forall v, exists u', Setters.q_set_hash dbg' u v = Some u'))
+  /\ (forall c, Origin.url_origin dbg' hp hpo hd c u <> Origin.OPanic /\ Origin.url_origin dbg' hp hpo hd c u <> Origin.OFuel)
+  /\ (C04_CheckInv.check_invariants hd u (C02_Reach.reparse dbg' hp hpo hd u) = C04_CheckInv.CPanic
+      <-> forall o, C02_Reach.reparse dbg' hp hpo hd u <> POk o)
+  /\ (C02_Reach.Fixpoint_of_reparse dbg' hp hpo hd u ->
+      C04_CheckInv.check_invariants hd u (C02_Reach.reparse dbg' hp hpo hd u) = C04_CheckInv.COk).
+Print Assumptions C04_no_panic_reachable3b.
+
+(* non-vacuity: the hypotheses and a history are those of C04_reachable3_inhabited ("http://u:p@h:81/a?q#f" reached by
+   Url::parse, a special URL: SP says its byte at path_start is '/'); the excluded class itself is inhabited among wf_b
+   records (C04_psm_witness: "http://h" with an empty path) - it is the history that excludes it, not well-formedness *)
+Example C04_reachable3b_inhabited :
+  (C03_ReachParts.HostWf C03_ReachKnown.ex_hp3 C02_AuthMain.ex_hp C03_ReachEx.ex_hd2
+   /\ C02_SetHostCanon.host_nonempty C03_ReachKnown.ex_hp3 C02_AuthMain.ex_hp /\ C03_AuthEnd.IpWf C03_ReachEx.ex_hd2
+   /\ C05_Parser.HostOK C03_ReachKnown.ex_hp3 C02_AuthMain.ex_hp C03_ReachEx.ex_hd2 /\ C05_Alphabet.IpOKv C03_ReachEx.ex_hd2)
+  /\ C04_Reach3Ex.reach3_ci_example_stmt
+  /\ (wf_b C04_SetPath.psm_w = true /\ C04_SetPath.psm_assert_fails C04_SetPath.psm_w = true).
+Proof.
+  split; [exact C03_ReachFullEx.ex3_full_hyps|]. split; [exact C04_Reach3Ex.reach3_ci_example|].
+  destruct C04_SetPath.psm_witness as (A & B & _). exact (conj A B).
+Qed.
